@@ -417,6 +417,8 @@ PROPS["C16"] = dict(
         ("c16_module_remove_f0_d2", "x", "remove_card (f0, depth 2)"),
         ("c16_module_remove_f0_d3", "x", "remove_card (f0, depth 3)"),
         ("c16_module_remove_f1_d1", "x", "remove_card (f1, top level)"),
+        ("c16_module_swap_self_f0d1", "x", "swap_cards(i, i) for any top-level index of f0: no-op"),
+        ("c16_module_swap_self_f0d2", "x", "swap_cards(i, i) for any depth-2 index of f0: no-op"),
         ("c16_module_swap_f0d1_f0d1", "x", "swap two top-level cards of f0 (incl. a card with itself)"),
         ("c16_module_swap_f0d2_f0d3", "x", "swap depth-2 with depth-3 card (incl. ancestor/descendant)"),
         ("c16_module_swap_f0d2_f1d2", "x", "swap across functions"),
@@ -803,23 +805,22 @@ _C07_LIM.update({
 })
 PROPS["C07"] = dict(
     functions=[
-        "CaoLangTable::{with_capacity,insert,remove,append,pop,len,nth_key,get (Deref to CaoHashMap)}, "
-        "CaoHashMap<Value,Value,AllocProxy>::{insert,get,get_mut,remove,contains,grow,find_ind}, <Value as Hash/Eq>",
+        "CaoLangTable::{with_capacity,insert,append,pop,len,nth_key,get (Deref to CaoHashMap)}, "
+        "CaoHashMap<Value,Value,AllocProxy>::{insert,get,contains,find_ind}, <Value as Hash/Eq> on integers",
     ],
-    bounds="catalogue of 5 pre-states built with concrete integer keys in an insertion order different from key "
-           "order (empty; 1; 3; array-like 0,1,2 plus key 4; 5 entries = one below the growth threshold of the "
-           "initial 8 buckets) x one operation (set / remove / append / pop / pop+append) with solver-chosen "
-           "i64 key and value x one solver-chosen observation (get by any i64 key, len, nth_key at any position); "
-           "nil and finite non-zero real keys on a one-entry table",
-    outside="sequences longer than pre-state + one (two) operations (two symbolic operations on the real table do "
-            "not close), string and table keys, aliasing through VM variables, the VM instructions, for-each",
-    explanation="Single steps from catalogued pre-states against an insertion-ordered association list written from "
-                "the property text; keys, values and the observed key/position are solver variables.",
+    bounds="an EMPTY table x one operation (quick: set(any i64 key, any i64 value); thorough adds append(any value) and pop) x "
+           "one solver-chosen observation (get by any i64 key, len, nth_key at any position 0..=7)",
+    outside="every operation on a non-empty table: one symbolic operation on catalogued pre-states of 1-5 entries and "
+            "scripts of 4-5 operations with concrete keys both ran past 600-700 s (tier x), so remove order, pop followed "
+            "by append, overwrite, growth and key collisions inside a table are NOT decided here (the generic map under it "
+            "is C12's); string, real, nil and table keys; aliasing through VM variables; the VM instructions; for-each",
+    explanation="Single step from the empty table against an insertion-ordered association list written from the property "
+                "text; key, value and the observed key/position are solver variables. Thin by measurement, stated as such.",
     assumptions=["tables owned by a large-limit AllocProxy without runtime (no collection can trigger)"],
-    level_text="Bounded model checking with Kani/CBMC of the real CaoLangTable over the real "
-               "CaoHashMap<Value,Value>: one set/remove/append/pop from each catalogued pre-state with all i64 keys "
-               "and values, observed through get/len/nth_key with solver-chosen arguments.",
-    level_note="Trusted: Kani/CBMC; the catalogue is the bound; histories are not explored.",
+    level_text="Bounded model checking with Kani/CBMC of the real CaoLangTable over the real CaoHashMap<Value,Value>: one "
+               "set (thorough: append, pop) on an empty table with all i64 keys and values, observed through get/len/nth_key "
+               "with solver-chosen arguments. Histories and non-empty tables are outside (did not close).",
+    level_note="Trusted: Kani/CBMC; a single step from the empty table only.",
     design_ref="DESIGN.md §3 C07",
     cap=dict(quick=600, thorough=2400),
     harnesses=[H("c07", n, t, bounds=b, limits=_C07_LIM) for (n, t, b) in [
@@ -835,33 +836,34 @@ PROPS["C07"] = dict(
         ("c07_pop_pre3", "x", "keys 0,1,2,4 + pop"),
         ("c07_pop_then_append_pre3", "x", "pop then append reuses the freed index"),
         ("c07_nil_and_real_keys", "x", "nil key and any finite non-zero real key"),
-        ("c07_script_0", "quick", "set 10,3,7; remove 10 - concrete keys, all i64 values, full comparison with the model at the end"),
-        ("c07_script_1", "quick", "append, append, pop, append - all i64 values"),
-        ("c07_script_2", "thorough", "set 5,-2; remove 5; pop; pop (one past empty)"),
-        ("c07_script_3", "thorough", "set 1,2; remove 1; set 1 again (moves to the end)"),
+        ("c07_set_then_pop", "x", "empty + set(any,any) + pop: value returned, key absent from both parts, empty again"),
+        ("c07_set_then_pop_then_append", "x", "same, then append(any): stored under index 0"),
+        ("c07_script_0", "x", "set 10,3,7; remove 10 - concrete keys, all i64 values, full comparison with the model at the end"),
+        ("c07_script_1", "x", "append, append, pop, append - all i64 values"),
+        ("c07_script_2", "x", "set 5,-2; remove 5; pop; pop (one past empty)"),
+        ("c07_script_3", "x", "set 1,2; remove 1; set 1 again (moves to the end)"),
     ]],
 )
 
 # --------------------------------------------------------------------------- C03
 PROPS["C03"] = dict(
     functions=["Vm::_run (budget counter), Vm::run_function (nested run), instr_execution::call_native, verif_hooks::count_dispatch"],
-    bounds="budgets N solver-chosen in 1..=5 on an endless Goto loop, 4..=7 on a 3-instruction program, 3..=5 on a "
-           "native that re-enters the interpreter on an endless script function after two outer instructions",
-    outside="budgets > 7 (the decrement-and-compare is the same code at every N: stated, not proved), compiled "
-            "programs, stdlib callbacks (sort/min/max), recursion deeper than one nested run",
+    bounds="budgets N solver-chosen in 1..=5 on an endless Goto loop",
+    outside="budgets > 5 (the decrement-and-compare is the same code at every N: stated, not proved), result independence "
+            "of a sufficient budget and the nested case (a native re-entering the interpreter through run_function): both "
+            "harness families did not close (tier x); compiled programs, stdlib callbacks (sort/min/max)",
     explanation="With the dispatch-counter hook the solver decides, for every budget in the range, that no more than N "
-                "instructions are dispatched in total (including inside a nested run_function), that exhaustion is "
-                "reported as Timeout, and that a program needing fewer instructions gives the same result for every "
-                "sufficient budget.",
+                "instructions are dispatched by a run of an endless loop and that exhaustion is reported as Timeout. "
+                "(Budget 0 and budgets 0..=3 on other programs: C04.)",
     assumptions=["alloc::fmt::format stubbed; hand-assembled programs"],
     level_text="Bounded model checking with Kani/CBMC of the interpreter's instruction budget with solver-chosen budgets "
-               "on three program shapes (endless loop, terminating program, native re-entering an endless callback).",
+               "1..=5 on an endless loop; the nested-run half of the property is outside (did not close).",
     level_note="Trusted: Kani/CBMC; the dispatch counter hook; small budgets.",
     design_ref="DESIGN.md §3 C03",
     cap=dict(quick=600, thorough=900), mem_gb=18, jobs=3,
     harnesses=[
         _vm("c03", "c03_endless_loop", dispatches=6, bounds="[Goto 0] under budget 1..=5"),
-        _vm("c03", "c03_run_function_budget", dispatches=5,
+        _vm("c03", "c03_run_function_budget", "x", dispatches=5,
             bounds="Vm::run_function on an endless script function with 1..=3 instructions left of a budget of 4",
             limits={r"vm::Vm::<.*>::run_function$#*": 3}),
         _vm("c03", "c03_sufficient_budget", "x", dispatches=4, bounds="[int x][SetGlobal 0][Exit] under budget 4..=7"),
@@ -872,23 +874,27 @@ PROPS["C03"] = dict(
 
 # --------------------------------------------------------------------------- C06
 PROPS["C06"] = dict(
-    functions=["instr_execution::{register_upvalue,read_upvalue,write_upvalue,close_upvalues,_close_upvalues,stack_offset}, "
-               "Vm::_run dispatch of CopyLast/RegisterUpvalue/ReadUpvalue/SetUpvalue/CloseUpvalue, RuntimeData::init_upvalue, "
+    functions=["instr_execution::{register_upvalue,read_upvalue,write_upvalue,close_upvalues,_close_upvalues,stack_offset} "
+               "called directly (verif_hooks::instr), RuntimeData::init_upvalue, Vm::init_closure, "
                "CardIndex::as_handle, Handle::{from_u64,from_bytes,add}"],
-    bounds="frame offsets 0,2,3 and local indices 0,1 (concrete per harness), slot contents solver-chosen over all "
-           "i64; two sibling closures; one write/read through an upvalue from a callee frame; close at scope exit; "
-           "closure-site labels for function indices 0..=7 and two-level card paths with sub-indices 0..=15",
-    outside="compiled closure shapes (the compiler is outside symbolic reach), nesting deeper than one level "
-            "(non-local upvalues), closures in loops, closure sites in different modules (the label does not depend "
-            "on the module at all: see known findings), garbage collection of captured variables (C02)",
+    bounds="function level, ONE closure: enclosing frame at offset 0, 2 or 3 and local index 0 or 1 (concrete per harness), "
+           "all slot contents and the written value solver-chosen over all i64; close at scope exit at offsets 0 and 2; "
+           "closure-site labels: pairwise distinct for function indices 0..=7 and two-level card paths with sub-indices "
+           "0..=15; distinct from every function label for f 0..=63 and three-level paths with sub-indices 0..=255; "
+           "pairwise distinct in that wider space (known finding: a collision exists)",
+    outside="two closures sharing a variable, two open upvalues, Return closing upvalues, non-local (nested) upvalues, "
+            "closures in loops, the dispatch loop (whole-VM harnesses did not close), compiled closure shapes (the compiler "
+            "is outside symbolic reach), closure sites in different modules (the label does not depend on the module), "
+            "garbage collection of captured variables (C02, not applicable)",
     explanation="Per frame offset / local index the solver decides over all slot contents that the registered upvalue "
-                "aliases exactly the enclosing frame's local, is shared between sibling closures, that writes and reads "
-                "through it reach that variable from another frame, and that after CloseUpvalue the closure keeps its "
-                "own copy. Label identity: no two closure sites in the bounded index space share a label.",
-    assumptions=["hand-assembled instruction sequences in the shape compiler.rs emits for closures"],
-    level_text="Bounded model checking with Kani/CBMC of the interpreter's upvalue instructions on a small VM (all slot "
-               "values, enumerated frame offsets) and of the closure label function over a bounded index space.",
-    level_note="Trusted: Kani/CBMC; shapes enumerated; compiler not covered.",
+                "aliases exactly the enclosing frame's local (pointer identity), that a write through it from the closure's "
+                "own frame reaches that variable and no other, that a read sees it, and that after CloseUpvalue the open "
+                "list is empty and the closure holds its own copy of the last value. Label identity: see bounds.",
+    assumptions=["instruction functions driven directly on a small VM (stack 8-9, 3 frames) with the operands compiler.rs emits; "
+                 "alloc::fmt::format stubbed; open-upvalue list walks bounded to 3 iterations (unwinding assertion)"],
+    level_text="Bounded model checking with Kani/CBMC of the interpreter's upvalue instruction functions on a small VM (one "
+               "closure, all slot values, enumerated frame offsets) and of the closure label function over a bounded index space.",
+    level_note="Trusted: Kani/CBMC; shapes enumerated; sharing/nesting/return and the compiler not covered.",
     design_ref="DESIGN.md §3 C06",
     cap=dict(quick=600, thorough=900), mem_gb=18, jobs=3,
     harnesses=[
@@ -908,20 +914,24 @@ PROPS["C06"] = dict(
 
 # --------------------------------------------------------------------------- C15
 PROPS["C15"] = dict(
-    functions=["Vm::_run error construction (payload_to_error closure: trace lookup at the failing instruction, call "
-               "chain from the call frames), CaoHashMap<u32,Trace>::get, Trace::clone"],
-    bounds="programs [ScalarNil][failing instruction][Exit] with a 4-entry trace map; failing instruction: CallNative "
-           "of a missing native (4 operand bytes), GetProperty/CallFunction on an integer (no operands), ReadUpvalue "
-           "outside a closure (4 operand bytes), ScalarInt on a full stack (8 operand bytes), Timeout; call depth 0 or "
-           "1 extra frame; operand values solver-chosen",
-    outside="what the compiler records in the trace map and under which CardIndex (compile() is outside symbolic "
-            "reach), compile-error locations, namespaces of sub-modules, deeper call chains",
-    explanation="For each failing opcode the first trace entry must be the one keyed by the failing instruction's "
-                "first byte and the second the one keyed by the innermost frame's call-site address.",
-    assumptions=["hand-built trace map with distinct card indices; alloc::fmt::format stubbed"],
-    level_text="Bounded model checking with Kani/CBMC of the interpreter's error-location construction for six failing "
-               "instruction kinds at call depth 0/1 on a small VM. The compiler half (which index a card gets) is outside.",
-    level_note="Trusted: Kani/CBMC; hand-built trace maps.",
+    functions=["Vm::_run error construction (payload_to_error closure: which bytecode address the error is attributed to, "
+               "recorded by verif_hooks::record_error_addr at the point where the trace map is consulted), "
+               "instr_execution::call_native, ValueStack::push, the budget check"],
+    bounds="programs [ScalarNil][failing instruction][Exit]; failing instruction: CallNative of a missing native (4 operand "
+           "bytes, handle solver-chosen), ScalarInt on a full stack (8 operand bytes, value solver-chosen), budget exhausted "
+           "before the second instruction; thorough adds ReadUpvalue outside a closure and ReadGlobalVar of an unknown id",
+    outside="building the trace itself (trace-map lookup, Trace clone, SmallVec of call-chain entries: those harnesses did "
+            "not close), errors on instructions without operands, call depth > 0 and the order of the call chain, what the "
+            "compiler records in the trace map and under which CardIndex (compile() is outside symbolic reach), compile-error "
+            "locations, namespaces of sub-modules",
+    explanation="For each failing opcode the address the error is attributed to must be the address of the failing "
+                "instruction's first byte (not the address after its operands), for all operand values.",
+    assumptions=["hand-assembled programs; alloc::fmt::format stubbed; the attributed address is observed through a hook that "
+                 "records the key used for the trace lookup"],
+    level_text="Bounded model checking with Kani/CBMC of the address a runtime error is attributed to, for three (thorough: "
+               "five) failing instruction kinds with solver-chosen operands on a small VM. Trace contents, call chains and "
+               "the compiler half (which index a card gets) are outside.",
+    level_note="Trusted: Kani/CBMC; the address hook; hand-built programs.",
     design_ref="DESIGN.md §3 C15",
     cap=dict(quick=600, thorough=900), mem_gb=22, jobs=2,
     harnesses=[
@@ -959,7 +969,8 @@ PROPS["C17"] = dict(
     design_ref="DESIGN.md §3 C17",
     cap=dict(quick=600, thorough=900), mem_gb=18, jobs=3,
     harnesses=[
-        _vm("c17", "c17_clear_equals_fresh", dispatches=0, bounds="clear() vs fresh VM, any earlier threshold"),
+        _vm("c17", "c17_clear_equals_fresh", dispatches=0, bounds="clear() vs fresh VM, any earlier threshold",
+            limits={r"vm::runtime::RuntimeData::clear_objects$#*": 3}),
         _vm("c17", "c17_run_three_times_ok", dispatches=4, bounds="[int x][Pop][Exit] run three times, call stack capacity 2"),
         _vm("c17", "c17_run_three_times_failing", "thorough", dispatches=4, bounds="failing program, clear, run again"),
     ],
@@ -986,15 +997,15 @@ PROPS["C02"] = dict(
     design_ref="DESIGN.md §3 C02",
     cap=dict(quick=600, thorough=900), mem_gb=18, jobs=3,
     harnesses=[
-        _vm("c02", "c02_string_in_global_survives", dispatches=2, bounds="string in a global across StringLiteral, schedule in 0..=3", objects=True, gc_loops=True),
-        _vm("c02", "c02_string_on_stack_survives", dispatches=2, bounds="string on the value stack across StringLiteral", objects=True, gc_loops=True),
-        _vm("c02", "c02_unreachable_string_is_collected", dispatches=2, bounds="unreachable string, collection at the first allocation", objects=True, gc_loops=True),
-        _vm("c02", "c02_running_closure_survives", dispatches=3, bounds="closure executing its own body allocates; schedule in 0..=1", objects=True, gc_loops=True),
-        _vm("c02", "c02_native_argument_survives", dispatches=2, bounds="native holding a popped string argument allocates; schedule in 0..=1", objects=True, gc_loops=True),
-        _vm("c02", "c02_gc_step_strings", dispatches=0, bounds="RuntimeData::gc directly: two strings, each rooted on stack/global/both/nowhere (solver-chosen)", objects=True, gc_loops=True),
-        _vm("c02", "c02_gc_step_table", dispatches=0, bounds="gc directly: table holding a string (optionally also itself), each rooted solver-chosen", objects=True, gc_loops=True),
-        _vm("c02", "c02_gc_step_closure", dispatches=0, bounds="gc directly: closure -> closed upvalue -> string, roots solver-chosen", objects=True, gc_loops=True),
-        _vm("c02", "c02_string_literal_under_gc", dispatches=0, bounds="instr_string_literal directly, collection at any subset of its two allocations, a rooted string alongside", objects=True, gc_loops=True),
+        _vm("c02", "c02_string_in_global_survives", "x", dispatches=2, bounds="string in a global across StringLiteral, schedule in 0..=3", objects=True, gc_loops=True),
+        _vm("c02", "c02_string_on_stack_survives", "x", dispatches=2, bounds="string on the value stack across StringLiteral", objects=True, gc_loops=True),
+        _vm("c02", "c02_unreachable_string_is_collected", "x", dispatches=2, bounds="unreachable string, collection at the first allocation", objects=True, gc_loops=True),
+        _vm("c02", "c02_running_closure_survives", "x", dispatches=3, bounds="closure executing its own body allocates; schedule in 0..=1", objects=True, gc_loops=True),
+        _vm("c02", "c02_native_argument_survives", "x", dispatches=2, bounds="native holding a popped string argument allocates; schedule in 0..=1", objects=True, gc_loops=True),
+        _vm("c02", "c02_gc_step_strings", "x", dispatches=0, bounds="RuntimeData::gc directly: two strings, each rooted on stack/global/both/nowhere (solver-chosen)", objects=True, gc_loops=True),
+        _vm("c02", "c02_gc_step_table", "x", dispatches=0, bounds="gc directly: table holding a string (optionally also itself), each rooted solver-chosen", objects=True, gc_loops=True),
+        _vm("c02", "c02_gc_step_closure", "x", dispatches=0, bounds="gc directly: closure -> closed upvalue -> string, roots solver-chosen", objects=True, gc_loops=True),
+        _vm("c02", "c02_string_literal_under_gc", "x", dispatches=0, bounds="instr_string_literal directly, collection at any subset of its two allocations, a rooted string alongside", objects=True, gc_loops=True),
     ],
 )
 
